@@ -833,3 +833,28 @@ package eval
 //@     invariant wls: forall k int :: {res[k]} (len(ipBlocks) <= k && k < index) ==> (dyntype(res[k], *k8s.WorkloadPeer) && unwrap(res[k], *k8s.WorkloadPeer) != nil && unwrap(res[k], *k8s.WorkloadPeer).Pod != nil)
 //@     invariant done: forall key string :: {seen(key)} {key in podOwnersMap} seen(key) ==> (exists k int :: {res[k]} len(ipBlocks) <= k && k < index && dyntype(res[k], *k8s.WorkloadPeer) && wlStr(unwrap(res[k], *k8s.WorkloadPeer).Pod) == key)
 //@     invariant owners: forall name string :: {name in pe.podsMap} name in pe.podsMap ==> wlStr(pe.podsMap[name]) in podOwnersMap
+
+// the workloads a Service selects (C10): workload peers of the Service's OWN namespace whose pod labels the selector matches
+//@ import labels "k8s.io/apimachinery/pkg/labels"
+//@ func (*PolicyEngine).GetSelectedPeers
+//@   requires pe != nil && podsMapOK(pe) && ownersMapOK(pe) && selectors != nil
+//@   modifies *
+//@   ensures [C10] sound: res1 == nil ==> (forall i int :: {res0[i]} (0 <= i && i < len(res0)) ==> (dyntype(res0[i], *k8s.WorkloadPeer) && unwrap(res0[i], *k8s.WorkloadPeer) != nil
+//@         && unwrap(res0[i], *k8s.WorkloadPeer).Pod != nil && unwrap(res0[i], *k8s.WorkloadPeer).Pod.Namespace == namespace
+//@         && lsMatch(selVal(unwrap(selectors, Ref)), unwrap(res0[i], *k8s.WorkloadPeer).Pod.Labels)
+//@         && (exists name string :: {name in pe.podsMap} name in pe.podsMap && unwrap(res0[i], *k8s.WorkloadPeer).Pod == pe.podsMap[name])))
+//@   loop 1:
+//@     invariant sound: forall i int :: {res[i]} (0 <= i && i < len(res)) ==> (dyntype(res[i], *k8s.WorkloadPeer) && unwrap(res[i], *k8s.WorkloadPeer) != nil
+//@         && unwrap(res[i], *k8s.WorkloadPeer).Pod != nil && unwrap(res[i], *k8s.WorkloadPeer).Pod.Namespace == namespace
+//@         && lsMatch(selVal(unwrap(selectors, Ref)), unwrap(res[i], *k8s.WorkloadPeer).Pod.Labels)
+//@         && (exists name string :: {name in pe.podsMap} name in pe.podsMap && unwrap(res[i], *k8s.WorkloadPeer).Pod == pe.podsMap[name]))
+
+// a representative pod is placed in the policy's namespace iff ITS OWN rule entry has no namespaceSelector; otherwise it has
+// no namespace - decided per entry, never carried over from an earlier entry of the list (C06, C07)
+//@ func (*PolicyEngine).generateRepresentativePeers
+//@   requires pe != nil && pe.representativePeersMap != nil && repPeersOK(pe)
+//@   modifies *
+//@   before call 1:
+//@     assert [C06,C07] ns: 0 <= rangeindex1 && rangeindex1 < len(selectors) && podNs == (if selectors[rangeindex1].NsSelector == nil then policyNs else "")
+//@   loop 1:
+//@     invariant inv: repPeersOK(pe) && pe.representativePeersMap != nil
